@@ -94,7 +94,41 @@ def _run_impl(case: dict) -> dict:
         bus.register(SearchRequestSentEvent, on_sent)
         bus.register(SearchRequestRemovedEvent, on_removed)
         bus.register(SearchResultEvent, on_result)
-        keep = (on_sent, on_removed, on_result)   # the bus holds listeners weakly
+        keep = [on_sent, on_removed, on_result]   # the bus holds listeners weakly
+
+        # optional second SearchRequestSentEvent listener (registered after the recorder, so it runs after it):
+        #   cfg['sent'] == 'slow'   : an async listener that suspends until the schedule releases it (`srelease`)
+        #   cfg['sent'] == 'remove' : a plain listener that removes the request it is told about (for the sent
+        #                             events whose ordinal is in cfg['sent_remove'])
+        sgates: list = []         # futures the slow listener is (or was) waiting on
+        sent_seen = [0]
+
+        async def slow_sent(e):
+            g = loop.create_future()
+            sgates.append(g)
+            await g
+
+        def removing_sent(e):
+            k = sent_seen[0]
+            sent_seen[0] += 1
+            if k in cfg.get('sent_remove', []):
+                m.remove_request(e.query)
+                r = rid_of(e.query)
+                if tracker.get(e.query.ticket) == r:
+                    del tracker[e.query.ticket]
+                events.append([now(), 'U', e.query.ticket, r, None, None])      # removed by the user (listener)
+
+        if cfg.get('sent') == 'slow':
+            bus.register(SearchRequestSentEvent, slow_sent)
+            keep.append(slow_sent)
+        elif cfg.get('sent') == 'remove':
+            bus.register(SearchRequestSentEvent, removing_sent)
+            keep.append(removing_sent)
+
+        def release_sent():
+            for g in sgates:
+                if not g.done():
+                    g.set_result(None)
 
         def task_done(t):
             if t.cancelled():
@@ -174,6 +208,16 @@ def _run_impl(case: dict) -> dict:
                     handler_tasks.append(ht)
                 elif k == 'release':
                     release_gates()
+                elif k == 'gsearch':
+                    # the search call runs as a task of the application; with the slow sent-listener it stays
+                    # suspended inside `await emit(SearchRequestSentEvent)` until `srelease`
+                    co = {'net': lambda: m.search('q'), 'room': lambda: m.search_room('room', 'q'),
+                          'user': lambda: m.search_user('user', 'q')}[op[1]]()
+                    ht = asyncio.ensure_future(co)
+                    ht.add_done_callback(task_done)
+                    handler_tasks.append(ht)
+                elif k == 'srelease':
+                    release_sent()
                 elif k in ('tcancel', 'tresched'):
                     r = m.requests.get(op[1])
                     if r is None:
@@ -208,13 +252,18 @@ def _run_impl(case: dict) -> dict:
             st['res'] = [[tk, len(r.results)] for tk, r in sorted(m.requests.items())]
             st['pend'] = sum(1 for t in timer_tasks if not t.done())
             st['susp'] = sum(1 for g in gates if g[1] and not g[0].done())
+            st['susp_sent'] = sum(1 for g in sgates if not g.done())
             st['stored'] = [[i, len(o.results)] for i, o in enumerate(objs)]
             steps.append(st)
         # let pending done-callbacks run (same instant) so that every task error is seen
         del errors[:]
         del events[:]
         release_gates()
-        await simloop.settle()
+        for _ in range(12):       # a released wishlist round goes on to its next item, which is gated again
+            release_sent()
+            await simloop.settle()
+            if all(g.done() for g in sgates):
+                break
         return {'late_errors': [list(x) for x in errors], 'late_events': [list(x) for x in events],
                 'handlers_pending': sum(1 for t in handler_tasks if not t.done()), 'keep': len(keep)}
 
@@ -316,7 +365,7 @@ def _monitor(case: dict, tr: dict) -> list[Violation]:
             if typ == 'KeyError' and r is not None and r['by_user']:
                 bad('C18-timer-error-after-remove',
                     f'{where}: KeyError({arg}) in the timer task of a request the user removed '
-                    '(remove_request leaves the Timer armed)', observed=[t, typ, arg], required='no error after removal')
+                    '(its Timer was left armed by remove_request, or was started after the removal)', observed=[t, typ, arg], required='no error after removal')
             else:
                 bad('C18-task-error', f'{where}: {typ}({arg}) inside a library task', observed=[t, typ, arg])
         if k == 'wlmsg':
@@ -350,6 +399,12 @@ def _monitor(case: dict, tr: dict) -> list[Violation]:
                 if k == 'sleep' and T is not None:       # created by a wishlist round while the loop runs
                     reqs[rid].update(deadline=t + T, arm=None)
                 live[tk] = rid
+            elif kind == 'U':
+                # remove_request called (successfully) by the sent-listener for the request it was told about
+                if live.get(tk) == rid:
+                    del live[tk]
+                if rid in reqs:
+                    reqs[rid].update(live=False, by_user=True)
             elif kind == 'X':
                 r = reqs.get(rid)
                 if r is None:
@@ -659,6 +714,113 @@ def _fixed_gated() -> list[dict]:
     return out
 
 
+def _gen_gsent(rng: random.Random) -> dict:
+    """MONITOR ONLY: what happens around the SearchRequestSentEvent notification. Either a slow async listener of
+    that event (the search call / the wishlist task stays suspended inside `emit` until `srelease`) while the
+    schedule removes the request, delivers a WishlistInterval message, closes the server connection, replies, or
+    lets time pass; or a plain listener that removes the request it is being told about."""
+    cfg = _gen_cfg(rng)
+    cfg['initial'] = 1
+    wish = rng.random() < 0.4
+    mode = 'slow' if rng.random() < 0.7 else 'remove'
+    cfg['sent'] = mode
+    if wish:
+        cfg['items'] = rng.choice([[1], [1, 1], [1, 0, 1]])
+        cfg['wt'] = rng.choice([-1, -1, 2, 3])
+        cfg['rt'] = rng.choice([0, 2, 5])
+    else:
+        cfg['rt'] = rng.choice([1, 2, 3, 5])
+    ops: list = []
+    if mode == 'remove':
+        n = rng.randint(1, 3)
+        cfg['sent_remove'] = sorted(rng.sample(range(4), rng.randint(1, 3)))
+        T = cfg['rt']
+        for _ in range(n):
+            ops.append(['search', rng.choice(['net', 'room', 'user'])])
+            if rng.random() < 0.4:
+                ops.append(['sleep', rng.choice([0, 1])])
+        if wish:
+            iv = rng.choice([2, 3, 4])
+            ops += [['wlmsg', iv], ['sleep', 0]]
+            T = max(T, cfg['wt'] if cfg['wt'] >= 0 else iv)
+            if rng.random() < 0.5:
+                ops += [['sleep', iv], ['wlclose']]
+        ops.append(['sleep', T + rng.choice([0, 1, 6])])
+        return {'cfg': cfg, 'ops': ops, 'kind': 'gsent', 'what': 'listener-removes'}
+    # slow listener
+    draws = 0
+    what = []
+    if not wish:
+        if rng.random() < 0.3:                       # one search that completes normally first
+            ops += [['gsearch', rng.choice(['net', 'room', 'user'])], ['sleep', 0], ['srelease'], ['sleep', 0]]
+            draws += 1
+        ops += [['gsearch', rng.choice(['net', 'room', 'user'])]]
+        draws += 1
+        if rng.random() < 0.9:
+            ops.append(['sleep', 0])                 # the call runs up to the slow listener
+        T = cfg['rt']
+    else:
+        iv = rng.choice([2, 3, 4])
+        ops += [['wlmsg', iv], ['sleep', 0]]         # the round registers its first item and suspends
+        draws += 1
+        T = cfg['wt'] if cfg['wt'] >= 0 else iv
+    tk = _tickets(1, draws)[-1]
+    for _ in range(rng.randint(1, 3)):
+        r = rng.random()
+        if r < 0.35:
+            ops.append(['remove', tk]); what.append('remove')
+        elif r < 0.55:
+            d = rng.choice([1, max(T - 1, 0), T, T + 1])
+            ops += [['jump', d], ['sleep', 0]] if rng.random() < 0.5 else [['sleep', d]]
+            what.append('time')
+        elif r < 0.70:
+            ops.append(['wlmsg', rng.choice([2, 3, 4])]); what.append('wlmsg')
+            if rng.random() < 0.6:
+                ops.append(['sleep', 0])
+        elif r < 0.82:
+            ops.append(['wlclose']); what.append('wlclose')
+            if rng.random() < 0.6:
+                ops.append(['sleep', 0])
+        elif r < 0.92:
+            ops.append(['reply', tk]); what.append('reply')
+        else:
+            ops += [['srelease'], ['sleep', 0]]; what.append('release')
+    ops += [['srelease'], ['sleep', 0]]
+    if rng.random() < 0.3:
+        ops.append(['remove', rng.choice([tk, tk + 1])])
+    if wish or 'wlmsg' in what:
+        ops += [['wlclose'], ['srelease'], ['sleep', 0]]
+    ops.append(['sleep', T + rng.choice([1, 5, 8])])
+    return {'cfg': cfg, 'ops': ops, 'kind': 'gsent', 'what': 'slow-listener'}
+
+
+def _fixed_gsent() -> list[dict]:
+    out = []
+    b = {'store': 1, 'initial': 1}
+    # (1) the sent-listener removes the request it is told about
+    out.append({'cfg': dict(b, rt=3, wt=-1, items=[], sent='remove', sent_remove=[0]), 'kind': 'gsent', 'what': 'fixed',
+                'ops': [['search', 'net'], ['search', 'user'], ['sleep', 10]]})
+    out.append({'cfg': dict(b, rt=0, wt=-1, items=[1, 1], sent='remove', sent_remove=[1]), 'kind': 'gsent',
+                'what': 'fixed', 'ops': [['wlmsg', 4], ['sleep', 0], ['wlclose'], ['sleep', 10]]})
+    # (2) remove_request from another task while the slow sent-listener is suspended
+    out.append({'cfg': dict(b, rt=3, wt=-1, items=[], sent='slow'), 'kind': 'gsent', 'what': 'fixed',
+                'ops': [['gsearch', 'net'], ['sleep', 0], ['remove', 2], ['srelease'], ['sleep', 0], ['sleep', 10]]})
+    out.append({'cfg': dict(b, rt=3, wt=-1, items=[], sent='slow'), 'kind': 'gsent', 'what': 'fixed',
+                'ops': [['gsearch', 'room'], ['sleep', 1], ['remove', 2], ['sleep', 5], ['srelease'], ['sleep', 10]]})
+    out.append({'cfg': dict(b, rt=0, wt=2, items=[1], sent='slow'), 'kind': 'gsent', 'what': 'fixed',
+                'ops': [['wlmsg', 9], ['sleep', 0], ['remove', 2], ['srelease'], ['sleep', 0], ['wlclose'], ['sleep', 10]]})
+    # (3) the wishlist task is cancelled while the slow sent-listener of its round is suspended
+    for cancel in (['wlmsg', 4], ['wlclose']):
+        for wt in (-1, 3):
+            out.append({'cfg': dict(b, rt=0, wt=wt, items=[1, 1], sent='slow'), 'kind': 'gsent', 'what': 'fixed',
+                        'ops': [['wlmsg', 4], ['sleep', 0], cancel, ['sleep', 0], ['srelease'], ['sleep', 0], ['wlclose'],
+                                ['srelease'], ['sleep', 0], ['sleep', 12]]})
+    # time passes while the listener is suspended: removal at the timeout, reported once
+    out.append({'cfg': dict(b, rt=3, wt=-1, items=[], sent='slow'), 'kind': 'gsent', 'what': 'fixed',
+                'ops': [['gsearch', 'net'], ['sleep', 0], ['sleep', 3], ['reply', 2], ['srelease'], ['sleep', 0], ['sleep', 5]]})
+    return out
+
+
 # known defects of the unchanged tree (repaired by the proposed patches) — replayed on every run
 W_REMOVE = {'cfg': {'rt': 5, 'wt': -1, 'store': 1, 'initial': 1, 'items': []}, 'kind': 'witness',
             'ops': [['search', 'net'], ['remove', 2], ['sleep', 10]]}
@@ -687,9 +849,13 @@ def _nontrivial(case, tr) -> bool:
     return timed_out and stale
 
 
+MONITOR_ONLY = ('gated', 'gsent')       # case families evaluated by the monitor only (the model stays atomic)
+
+
 def _gated_stats(case, tr) -> dict:
-    """what happened while at least one reply handler was suspended in disconnect()"""
-    out = {'remove': 0, 'timeout': 0, 'reply': 0}
+    """what happened while at least one reply handler was suspended in disconnect() / at least one
+    SearchRequestSentEvent listener was suspended (or: how often the sent-listener removed its own request)"""
+    out = {'remove': 0, 'timeout': 0, 'reply': 0, 'wishlist-cancelled': 0, 'listener-removed': 0}
     prev = 0
     for op, st in zip(case['ops'], tr['steps']):
         if prev > 0:
@@ -699,7 +865,10 @@ def _gated_stats(case, tr) -> dict:
                 out['timeout'] += 1
             if op[0] in ('greply', 'reply'):
                 out['reply'] += 1
-        prev = st.get('susp', 0)
+            if op[0] in ('wlmsg', 'wlclose') and case['kind'] == 'gsent':
+                out['wishlist-cancelled'] += 1
+        out['listener-removed'] += sum(1 for e in st['events'] if e[1] == 'U')
+        prev = st.get('susp', 0) + st.get('susp_sent', 0)
     return out
 
 
@@ -714,6 +883,10 @@ class C18(Property):
             'at 1 or just below 2^32; plus every order of removal / reply / expiry at the instant of the timeout; '
             'plus a MONITOR-ONLY family (n/5 cases, not compared with the model) in which the reply handler is '
             'suspended in connection.disconnect() while the request is removed / times out / is answered again; '
+            'and a second MONITOR-ONLY family (n/5) around the SearchRequestSentEvent notification: a slow async '
+            'sent-listener (search call / wishlist task suspended inside emit) while the request is removed, a '
+            'WishlistInterval message or server close cancels the wishlist task, a reply arrives or time passes; or a '
+            'sent-listener that removes the request it is told about; '
             'derived from VERIF_SEED. Non-trivial: at least one timeout removal happened AND a reply/removal hit a '
             'ticket that was registered earlier, or a removal / cancel / re-arm hit an armed timer; distinct = '
             'distinct canonical case; a gated case is non-trivial when a removal, a timeout or another reply '
@@ -728,6 +901,8 @@ class C18(Property):
         'already removed request, or a second Timer.start(), are API misuse outside the property)',
         'properties are claimed for fewer than 2^32-1 ticket draws between two live requests; the correspondence '
         'stops comparing at the first ticket re-use (the model flags it as `clobber`)',
+        'suspension of / re-entrancy from SearchRequestSentEvent listeners is exercised by the monitor-only `gsent` '
+        'family; the Lean model keeps search and the wishlist round atomic',
         'suspension inside connection.disconnect() of the reply handler is exercised by the monitor-only `gated` '
         'family (event order only); the Lean model keeps the handler atomic',
         'WishlistInterval(0) makes the wishlist BackgroundTask spin without sleeping; not generated, not modelled',
@@ -751,6 +926,8 @@ class C18(Property):
         # monitor-only family (own PRNG stream so that the modelled cases above stay what they were)
         rng2 = random.Random(f'C18-gated-{seed}')
         cases += _fixed_gated() + [_gen_gated(rng2) for _ in range(n // 5)]
+        rng3 = random.Random(f'C18-gsent-{seed}')
+        cases += _fixed_gsent() + [_gen_gsent(rng3) for _ in range(n // 5)]
         return cases
 
     def correspondence(self, seed, tier, model_ok, widen=1):
@@ -761,7 +938,7 @@ class C18(Property):
         if model_ok:
             lines, spans = [], []
             for c in cases:
-                ls = _model_lines(c) if c['kind'] != 'gated' else []     # gated cases: monitor only
+                ls = _model_lines(c) if c['kind'] not in MONITOR_ONLY else []
                 spans.append((len(lines), len(ls)))
                 lines += ls
             out = common.run_driver(self.driver_file, lines)
@@ -777,7 +954,7 @@ class C18(Property):
                 res.count('op:' + op[0])
             for st in tr['steps']:
                 for e in st['events']:
-                    res.count('event:' + {'S': 'sent', 'X': 'timeout-removed', 'R': 'result'}[e[1]])
+                    res.count('event:' + {'S': 'sent', 'X': 'timeout-removed', 'R': 'result', 'U': 'removed-by-sent-listener'}[e[1]])
                 if st['ret']:
                     res.count('ret:' + st['ret'])
                 if st['clobber']:
@@ -786,15 +963,16 @@ class C18(Property):
             res.count('timeout:wishlist=' + ('server' if c['cfg']['wt'] < 0 else 'off' if c['cfg']['wt'] == 0 else 'own'))
             if c['cfg']['initial'] != 1:
                 res.count('generator-near-wrap')
-            if c['kind'] == 'gated':
-                res.count('gated:' + c.get('what', ''))
+            if c['kind'] in MONITOR_ONLY:
+                fam = c['kind']
+                res.count(f'{fam}:' + c.get('what', ''))
                 g = _gated_stats(c, tr)
                 for key, v in g.items():
                     if v:
-                        res.count('gated-while-suspended:' + key, v)
+                        res.count(f'{fam}-while-suspended:' + key, v)
                 if any(g.values()):
                     res.nontrivial_keys.add(common.sha([c['cfg'], c['ops']]))
-                    res.count('gated-nontrivial')
+                    res.count(f'{fam}-nontrivial')
                 res.violations += _monitor(c, tr)
                 continue
             if _nontrivial(c, tr):
